@@ -152,8 +152,9 @@ static void gen_c12(Plan& p, Rng& r) {
             }
             if (faults && r.below(3) == 0) {
                 bool wr = o.name == "fd_write" || o.name == "fd_pwrite"; uint64_t tot = 0; for (uint32_t l : o.iov) tot += l;
-                uint32_t c = r.below(6);
-                if (c < 2 && tot > 1) { o.fault = wr ? "short_write" : "short_read"; o.fault_nth = 1; o.fault_param = 1 + (int64_t)r.below((uint32_t)std::min<uint64_t>(tot - 1, 5000)); }
+                uint32_t c = r.below(7);
+                if (c == 6) { o.fault = "malloc_fail"; o.fault_nth = 1; }      // the native iovec array cannot be allocated
+                else if (c < 2 && tot > 1) { o.fault = wr ? "short_write" : "short_read"; o.fault_nth = 1; o.fault_param = 1 + (int64_t)r.below((uint32_t)std::min<uint64_t>(tot - 1, 5000)); }
                 else if (c == 2) { o.fault = wr ? "eintr_write" : "eintr_read"; o.fault_nth = 1; }
                 else if (c == 3) { o.fault = wr ? "eio_write" : "eio_read"; o.fault_nth = 1; }
                 else if (c == 4 && wr) { o.fault = "enospc_write"; o.fault_nth = 1; }
